@@ -395,6 +395,9 @@ pub fn execute(
     }
 }
 
+/// Wall-clock bound of one isolated execution (SIGALRM terminates the child).
+pub const ISOLATED_TIMEOUT_S: u32 = 90;
+
 /// `execute` in a forked child: a scenario that kills the process (abort on allocation failure,
 /// stack overflow, a signal) costs the child only, and comes back as a `process-death` outcome.
 /// Only called while this process is single-threaded (after the batch has been collected).
@@ -430,6 +433,8 @@ pub fn execute_isolated(
             if devnull >= 0 {
                 libc::dup2(devnull, 2);
             }
+            // a scenario that never returns costs the child its alarm, not the check its life
+            libc::alarm(ISOLATED_TIMEOUT_S);
             let mut stats = Stats::default();
             let out = execute(def, prop, scenario, &mut stats, known, trace);
             let bytes = serde_json::to_vec(&out).unwrap_or_default();
